@@ -5,6 +5,7 @@
 // property statement itself, computed independently (Floyd–Warshall reachability).
 use std::collections::HashSet;
 use tauri_typegen::analysis::dependency_graph::TypeDependencyGraph;
+use tauri_typegen::build::dependency_resolver::{Dependency, DependencyNode, DependencyNodeType, DependencyResolver, DependencyType};
 use verif_native::*;
 
 const NAMES: [&str; 4] = ["A", "B", "C", "D"];
@@ -54,8 +55,42 @@ fn describe(n: usize, edges: u32, req: u32) -> String {
     format!("n={} edges={} requested={} [{} ; {}]", n, edges, req, e.join(","), rq.join(","))
 }
 
+fn node(i: usize) -> DependencyNode {
+    DependencyNode { name: NAMES[i].to_string(), path: format!("{}.rs", NAMES[i]), node_type: DependencyNodeType::Struct }
+}
+
+/// C20, second sentence: the build-order resolver (Kahn) — BOUNDED only
+fn kahn_case(n: usize, edges: u32) -> Result<String, String> {
+    let mut r = DependencyResolver::new();
+    for i in 0..n { r.add_node(node(i)); }
+    for u in 0..n { for v in 0..n { if edges & (1 << (u * n + v)) != 0 {
+        r.add_dependency(Dependency { from: node(u), to: node(v), dependency_type: DependencyType::Field });
+    } } }
+    let reach_m = reach(n, edges);
+    let acyclic = (0..n).all(|u| edges & (1 << (u * n + u)) == 0 && (0..n).all(|v| u == v || !(reach_m[u][v] && reach_m[v][u])));
+    match r.resolve_build_order() {
+        Ok(order) => {
+            if !acyclic { return Err(format!("graph is cyclic but an order was returned: {:?}", order.iter().map(|x| x.name.clone()).collect::<Vec<_>>())); }
+            if order.len() != n { return Err(format!("{} nodes, order has {}", n, order.len())); }
+            let pos = |i: usize| order.iter().position(|x| x.name == NAMES[i]);
+            for i in 0..n { if pos(i).is_none() { return Err(format!("{} missing from the order", NAMES[i])); } }
+            for u in 0..n { for v in 0..n { if edges & (1 << (u * n + v)) != 0 && pos(v) > pos(u) {
+                return Err(format!("{} depends on {} but is ordered before it", NAMES[u], NAMES[v]));
+            } } }
+            Ok(format!("{:?}", order.iter().map(|x| x.name.clone()).collect::<Vec<_>>()))
+        }
+        Err(e) => if acyclic { Err(format!("graph is acyclic but the resolver reported {}", e)) } else { Ok("circular".into()) },
+    }
+}
+
 fn main() {
     let mut rep = Report::new();
+    for n in 1..=4usize {
+        for edges in 0..(1u32 << (n * n)) {
+            if n == 4 && Report::depth() < 5 && edges % 7 != 0 { continue; }
+            rep.case("resolve_build_order", &format!("n={} edges={}", n, edges), &|| kahn_case(n, edges));
+        }
+    }
     // quick (depth <= 4): all graphs on <= 3 nodes, every 23rd graph on 4 nodes; thorough: all 65 536
     let full4 = Report::depth() >= 5;
     for n in 1..=4 {
